@@ -173,6 +173,11 @@ func entryIs(r lspRange, s gmodel.Span, lines []string) bool {
 	if r.End.Line == s.EndLine && r.End.Char == s.U1 {
 		return true
 	}
+	// ... or the end of the last line's text: the property does not say whether
+	// blanks after the last lexeme belong to the entry
+	if s.EndLine < len(lines) && r.End.Line == s.EndLine && r.End.Char == u16(strings.TrimRight(lines[s.EndLine], " \t")) {
+		return true
+	}
 	return r.End.Line == s.EndLine+1 && r.End.Char == 0
 }
 
